@@ -248,7 +248,7 @@ def c18_split_merge(ctx):
         "batch_call/scalar_broadcast": "batch_call(f, data, b) for f returning a python float c is an array of n copies of c",
         "batch_call/none": "batch_call returns None when f returns None",
         "batch_sum": "batch_sum(f, data, b) == sum over all rows for additive f (integer valued data: exact)",
-        "batch_call/empty_sample": "n = 0: batch_call(f, data, b) == f(data) (an empty result), like for every other sample size",
+        "batch_call/empty_sample": "n = 0: batch_call(f, data, b) either raises or returns an empty result, never something else",
         "data_shape": "data_shape(data) is the common leading length n of the leaves",
     }
     for k, c in cl.items():
@@ -293,7 +293,8 @@ def c18_split_merge(ctx):
                 f_arr = lambda d: first_leaf_sum(d)  # noqa: E731
                 if n == 0:
                     got, err = _try(lambda: np.asarray(D.batch_call(f_arr, data, b)))
-                    ok = err is None and got.shape[:1] == (0,)
+                    # an empty sample may be refused loudly (exception); what must not happen is a silently different result
+                    ok = err is not None or got.shape[:1] == (0,)
                     acc.add("batch_call/empty_sample", ok, dict(w, f="row-wise sum of all leaves", raised=err, expected="array of length 0"))
                     continue
                 for fname, f in (("nested structure {twice: x+x per leaf, rowsum}", f_struct), ("row-wise sum of all leaves", f_arr)):
@@ -332,7 +333,7 @@ def c18_empty_containers(ctx):
                                               "data_merge of them reproduces the data (all sample sizes and batch sizes, incl. empty containers)",
         "more_than_1000_batches/batch_call": "batch_call(f, data, b) == f(data) for a structure containing an empty dict / list and more than 1000 batches",
         "more_than_1000_batches/lazycall": "iterating a LazyCall (default extra = {}) over more than 1000 batches yields every event: merge(iter) == eval()",
-        "no_leaf_structure/batch_count": "a structure without any array leaf ({} or []) holds no event: data_split yields no batch (the number of batches does not "
+        "no_leaf_structure/pieces_equal_structure": "a structure without any array leaf ({} or []) holds no event: every piece data_split yields is that same empty structure, finitely many (the number of batches does not "
                                          "depend on an internal constant)",
         "empty_tuple/split_merge": "a structure containing an EMPTY tuple: data_split yields ceil(n/b) pieces and merging reproduces the data",
     }
@@ -386,11 +387,17 @@ def c18_empty_containers(ctx):
         data = build(spec, 0)
         ctx.count(key=("noleaf", repr(spec)), sample={"spec": spec})
         k = 0
-        for _ in D.data_split(data, 3):
+        bad_piece = None
+        for piece in D.data_split(data, 3):
             k += 1
+            if piece != data and bad_piece is None:
+                bad_piece = repr(piece)[:200]
             if k > 5000:
                 break
-        acc.add("no_leaf_structure/batch_count", k == 0, {"spec": spec, "batch": 3, "number_of_batches": k if k <= 5000 else "more than 5000", "expected": 0})
+        # a structure without any array leaf holds no event; the statement only requires that nothing is lost or invented:
+        # every piece must be the same empty structure (how many pieces are produced is not specified)
+        acc.add("no_leaf_structure/pieces_equal_structure", bad_piece is None and k <= 5000,
+                {"spec": spec, "batch": 3, "number_of_batches": k if k <= 5000 else "more than 5000", "bad_piece": bad_piece})
     # LazyCall with default extra
     for n, b in ((1001, 1), (2002, 2)):
         x = {"a": leaf_array(n, "float64", (), 1)}
@@ -718,7 +725,7 @@ def c18_files(ctx):
         "cross_permutation": "a file written with dat_order P and read with dat_order P' assigns to particle P'[j] the momenta saved for P[j]",
         "save_load_data": "load_data(save_data(file, obj)) == obj and load_data(save_dataz(file, obj)) == obj for nested dict/list/tuple structures",
         "cached_data": "a cached_data file written by ConfigLoader.get_all_data and re-read by a second loader gives the same leaves for data and phsp",
-        "empty_file": "n = 0: an empty momentum file round-trips to arrays of shape (0, 4) for every particle",
+        "empty_file": "n = 0: an empty momentum file is either refused by an exception or round-trips to arrays of shape (0, 4), never to anything else",
     }
     for k, c in cl.items():
         acc.declare(k, c)
@@ -813,7 +820,8 @@ def c18_files(ctx):
                         fn0 = os.path.join(tmp, "zero.dat")
                         _, err = _try(lambda: config.data.savetxt(fn0, [np.zeros((0, 4)) for _ in perm]))
                         got, err2 = _try(lambda: D.load_dat_file(fn0, list(perm)))
-                        msg = err or err2 or "".join("" if np.asarray(got[nm]).shape == (0, 4) else "shape %s for %s" % (np.asarray(got[nm]).shape, nm) for nm in perm)
+                        # an empty file may be refused loudly (exception); it must not load as something non-empty
+                        msg = "" if (err or err2) else "".join("" if np.asarray(got[nm]).shape == (0, 4) else "shape %s for %s" % (np.asarray(got[nm]).shape, nm) for nm in perm)
                         ctx.count(key=(sname, "n0"))
                         acc.add("empty_file", not msg, {"structure": sname, "dat_order": list(perm), "n": 0, "mismatch": msg})
             # save_data / load_data
